@@ -544,5 +544,50 @@ def rule_decoded_frames_yielded(ctx):
 
 
 
+
+def rule_short_fields_fail(ctx):
+    """C04.l  A frame that is cut short inside a fixed-width field is undecodable.  The parse methods hand the field
+    decoders slices (`buffer[offset:offset + 8]`), and a slice past the end is silently shorter: it is the decoder that
+    must fail on it.  struct.unpack / unpack_from and cbitstruct.unpack do (the format fixes the size); indexing does;
+    `int.from_bytes` does not - it accepts any number of bytes, the empty string included - so a correctly delimited
+    but truncated KEEPALIVE / RESUME frame decodes into an ordinary frame with an invented value instead of producing
+    the invalid-frame marker.  Every `int.from_bytes` in the codecs is therefore preceded, in its function, by an
+    explicit test of the length of what it decodes."""
+    rep = ctx.report
+    n_dec = 0
+    bad = []
+    for f in ctx.repo.all_functions():
+        if not f.module.name.startswith('rsocket.') or f.module.name.startswith('rsocket.cli'):
+            continue
+        for x in walk_local(f.node):
+            if isinstance(x, ast.Call) and isinstance(x.func, ast.Attribute):
+                if x.func.attr in ('unpack', 'unpack_from') and isinstance(x.func.value, ast.Name) and \
+                        x.func.value.id in ('struct', 'cbitstruct'):
+                    n_dec += 1
+                if x.func.attr == 'from_bytes' and x.args:
+                    n_dec += 1
+                    subject = {y.id for y in ast.walk(x.args[0]) if isinstance(y, ast.Name)}
+                    guarded = False
+                    for g in walk_local(f.node):
+                        if isinstance(g, (ast.If, ast.Assert)) and g.lineno < x.lineno:
+                            t = g.test
+                            if any(isinstance(c, ast.Call) and isinstance(c.func, ast.Name) and c.func.id == 'len' and
+                                   c.args and subject & {y.id for y in ast.walk(c.args[0]) if isinstance(y, ast.Name)}
+                                   for c in ast.walk(t)):
+                                guarded = True
+                    if not guarded:
+                        bad.append((f, x))
+    for f, x in bad:
+        rep.bad('C04.l', '%s / %s decodes whatever it is given' % (f.qualname.split(':')[-1], ast.unparse(x)[:60]), f,
+                'int.from_bytes accepts fewer bytes than the field has (a slice past the end of a truncated frame is '
+                'silently short): a frame cut inside this field decodes instead of being marked invalid')
+    rep.require('C04.l', 'fixed-width decoders in the library', n_dec, 15)
+    if not bad:
+        rep.ok('C04.l', 'field decoders / every decoder fails on a short field',
+               ctx.repo.func('rsocket.frame:parse_or_ignore'),
+               '%d struct / cbitstruct / from_bytes decoders; every from_bytes is behind a length test' % n_dec)
+
+
+
 RULES = [('C04.a', rule_a), ('C04.b', rule_b), ('C04.c', rule_c), ('C04.d', rule_d), ('C04.e', rule_e),
-         ('C04.f', rule_f), ('C12.e', rule_g), ('C12.a', rule_h), ('C04.g', rule_i), ('C04.h', rule_j), ('C04.i', rule_k), ('C02.h', rule_decoder_entry), ('C04.j', rule_marker_queues), ('C04.k', rule_decoded_frames_yielded)]
+         ('C04.f', rule_f), ('C12.e', rule_g), ('C12.a', rule_h), ('C04.g', rule_i), ('C04.h', rule_j), ('C04.i', rule_k), ('C02.h', rule_decoder_entry), ('C04.j', rule_marker_queues), ('C04.k', rule_decoded_frames_yielded), ('C04.l', rule_short_fields_fail)]
